@@ -253,6 +253,9 @@ def check(run):
          ["override", "Pair", "B-B", "as.buck 1.0 0.3 0.0"]],                                                       # one item overridden and removed under different spellings
         [["remove", "Notes", "eq"], ["remove", "Notes", "A-B"]],                                                    # removing the last keys drops the section
         [["add", "Notes", "eq ", "again"]],                                                                         # add of an existing key (trailing blank)
+        [["add", "Pair", "A-O", "as.zero"], ["add", "Pair", "A-O", "as.buck 9.0 0.3 0.0"]],                         # one new item added twice: the second addition finds it there
+        [["add", "Pair", "A-O", "as.zero"], ["override", "Pair", "B-B", "myform 3.5"], ["add", "Pair", "A - O", "as.buck 9.0 0.3 0.0"]],   # ... under two spellings
+        [["add", "Potential-Form", "other(r,b)", "b*r"], ["add", "Potential-Form", "other(r, b)", "b+r"]],
     ]
     cli_cases = [(scen, ["A", "B", "O"], o) for o in scenarios] + cases[: run.n(70, 1200)]
     for (secs, species, ops) in cli_cases:
